@@ -232,19 +232,19 @@ class MBTilesCache(TileCacheBase):
             coords.append(x)
             coords.append(y)
             coords.append(level)
-            tile_dict[(x, y)] = tile
+            tile_dict[(x, y, level)] = tile
 
         if not tile_dict:
             # all tiles loaded or coords are None
             return True
 
         if self.supports_timestamp:
-            stmt_base = "SELECT tile_column, tile_row, tile_data, last_modified FROM tiles WHERE "
+            stmt_base = "SELECT tile_column, tile_row, zoom_level, tile_data, last_modified FROM tiles WHERE "
             if self.ttl:
                 ttl_condition = "datetime('now', 'localtime', '%d seconds') < last_modified" % -self.ttl
                 stmt_base += ttl_condition + ' AND '
         else:
-            stmt_base = "SELECT tile_column, tile_row, tile_data FROM tiles WHERE "
+            stmt_base = "SELECT tile_column, tile_row, zoom_level, tile_data FROM tiles WHERE "
 
         loaded_tiles = 0
 
@@ -260,12 +260,12 @@ class MBTilesCache(TileCacheBase):
 
             for row in cursor:
                 loaded_tiles += 1
-                tile = tile_dict[(row[0], row[1])]
-                data = row[2]
+                tile = tile_dict[(row[0], row[1], row[2])]
+                data = row[3]
                 tile.size = len(data)
                 tile.source = ImageSource(BytesIO(data))
                 if self.supports_timestamp:
-                    tile.timestamp = sqlite_datetime_to_timestamp(row[3])
+                    tile.timestamp = sqlite_datetime_to_timestamp(row[4])
             cursor.close()
 
             coords = coords[999:]
